@@ -100,7 +100,7 @@ func vC14Status(a *asset, repID string, cycle int, reps []string) {
 	// oracle
 	cycleTicks := cycle * ts
 	c := vSegStartTicks(a, ref, n) / cycleTicks // cycle index of this segment
-	j := n - rsq                                  // candidate first segment of the cycle
+	j := n - rsq                                // candidate first segment of the cycle
 	hit := false
 	if j >= 0 {
 		if vSegStartTicks(a, ref, j) >= c*cycleTicks {
